@@ -4,8 +4,513 @@ Require Import Verif.Base.Atomics Verif.Gen.Gen_bounded_queue Verif.Conc.Machine
 Import ListNotations.
 Local Open Scope Z_scope.
 
+Lemma length_set_nth : forall A (l : list A) n x, length (set_nth n x l) = length l.
+Proof. induction l as [|y l IH]; intros [|n] x; cbn; auto. Qed.
+Lemma nth_error_set_nth_eq : forall A (l : list A) n x, (n < length l)%nat -> nth_error (set_nth n x l) n = Some x.
+Proof. induction l as [|y l IH]; intros [|n] x H; cbn in *; try lia; auto. apply IH. lia. Qed.
+Lemma nth_error_set_nth_neq : forall A (l : list A) n m x, n <> m -> nth_error (set_nth n x l) m = nth_error l m.
+Proof. induction l as [|y l IH]; intros [|n] [|m] x H; cbn in *; try congruence; auto. Qed.
+Lemma nth_set_nth_neq : forall A (l : list A) n m x d, n <> m -> nth m (set_nth n x l) d = nth m l d.
+Proof. induction l as [|y l IH]; intros [|n] [|m] x d H; cbn in *; try congruence; auto. Qed.
+Lemma nth_set_nth_eq : forall A (l : list A) n x d, (n < length l)%nat -> nth n (set_nth n x l) d = x.
+Proof. induction l as [|y l IH]; intros [|n] x d H; cbn in *; try lia; auto. apply IH. lia. Qed.
+Lemma nth_error_set_nth_some : forall A (l : list A) n m x y, nth_error (set_nth n x l) m = Some y ->
+  (n = m /\ y = x) \/ (n <> m /\ nth_error l m = Some y).
+Proof.
+  intros A l n m x y H. destruct (Nat.eq_dec n m) as [->|N].
+  - left. split; auto. destruct (Nat.lt_ge_cases m (length l)) as [L|L].
+    + rewrite nth_error_set_nth_eq in H by auto. congruence.
+    + assert (nth_error (set_nth m x l) m = None) by (apply nth_error_None; rewrite length_set_nth; lia). congruence.
+  - right. split; auto. rewrite nth_error_set_nth_neq in H; auto.
+Qed.
+
+(* the wf field of a slot fetched with default *)
+Definition wfs (sls : list slot) (sl : nat) : bool := wf (nth sl sls slot0).
+Lemma wfs_set_same : forall sls n x sl, wf x = wfs sls n -> wfs (set_nth n x sls) sl = wfs sls sl.
+Proof.
+  intros sls n x sl H. unfold wfs in *. destruct (Nat.eq_dec n sl) as [->|N].
+  - destruct (Nat.lt_ge_cases sl (length sls)).
+    + rewrite nth_set_nth_eq; auto.
+    + rewrite !nth_overflow; auto. rewrite length_set_nth. lia.
+  - rewrite nth_set_nth_neq; auto.
+Qed.
+Lemma cb_push_wf : forall vs t sls base i ps e sl, wfs (fst (fst (cb_push t sls base i vs ps e))) sl = wfs sls sl.
+Proof.
+  induction vs as [|v vs IH]; intros; cbn [cb_push]; auto.
+  rewrite IH. apply wfs_set_same. reflexivity.
+Qed.
+Lemma cb_pop_wf : forall n t sls base i ds g e sl, wfs (fst (fst (fst (cb_pop t sls base i n ds g e)))) sl = wfs sls sl.
+Proof.
+  induction n as [|n IH]; intros; cbn [cb_pop]; auto.
+  rewrite IH. apply wfs_set_same. reflexivity.
+Qed.
+
+Definition benign (p : pc) : Prop := match p with WParked _ _ | PubWake _ | WkWake _ _ => False | _ => True end.
+
+Lemma benign_after_wait : forall o l j, benign (after_wait o l j).
+Proof. intros. unfold after_wait. repeat destruct (_ : bool); exact I. Qed.
+Lemma benign_first_wait : forall o l, benign (first_wait o l).
+Proof. intros. unfold first_wait. repeat destruct (_ : bool); exact I. Qed.
+Lemma benign_slow_path : forall o j v w, benign (slow_path o j v w).
+Proof. intros. unfold slow_path. repeat destruct (_ : bool); exact I. Qed.
+
+Ltac ben := cbn; repeat (match goal with |- context [match ?x with _ => _ end] => destruct x end; cbn); exact I.
+
+Lemma end_segment_shape : forall s t th o, exists th', end_segment s t th o = upd s t th' /\ benign (tpc th') /\ prog th' = prog th.
+Proof.
+  intros. unfold end_segment.
+  destruct (rest (add_cnt (lc th))) as [[i2 n2]|]; destruct (okind o);
+    try (eexists; split; [reflexivity| split; [exact I | reflexivity]]).
+  - eexists; split; [reflexivity| split; [apply benign_first_wait | reflexivity]].
+  - destruct (try_short _ _ _); eexists; (split; [reflexivity| split; [|reflexivity]]); ben.
+  - destruct (try_short _ _ _); eexists; (split; [reflexivity| split; [|reflexivity]]); ben.
+Qed.
+
+Definition wfS (s : st) (sl : nat) : bool := wfs (slots s) sl.
+Definition iscertain (p : pc) (sl : nat) : Prop :=
+  match p with PubWake sl' => sl' = sl | WkWake _ sl' => sl' = sl | _ => False end.
+Definition notcertain (p : pc) : Prop := forall sl, ~ iscertain p sl.
+
+Inductive effect (s : st) (t : nat) (th : thread) (s' : st) : Prop :=
+| EQuiet th' : threads s' = set_nth t th' (threads s) -> benign (tpc th') -> (forall sl, wfS s' sl = wfS s sl) ->
+               notcertain (tpc th) -> effect s t th s'
+| ESetW th' : threads s' = set_nth t th' (threads s) -> benign (tpc th') ->
+               (forall sl, wfS s sl = true -> wfS s' sl = true) -> notcertain (tpc th) -> effect s t th s'
+| EPark th' j sl0 : threads s' = set_nth t th' (threads s) -> tpc th' = WParked j sl0 -> wfS s sl0 = true ->
+               (forall sl, wfS s' sl = wfS s sl) -> notcertain (tpc th) -> effect s t th s'
+| EClear th' sl0 : threads s' = set_nth t th' (threads s) -> (forall sl, sl <> sl0 -> wfS s' sl = wfS s sl) ->
+               (tpc th' = PubWake sl0 \/ (exists j, tpc th' = WkWake j sl0) \/ (benign (tpc th') /\ wfS s sl0 = false)) ->
+               notcertain (tpc th) -> effect s t th s'
+| EWake th' sl0 : threads s' = set_nth t th' (map (wake_thread sl0) (threads s)) -> benign (tpc th') ->
+               (forall sl, wfS s' sl = wfS s sl) -> (forall sl, iscertain (tpc th) sl -> sl = sl0) -> effect s t th s'.
+
+Section Eff.
+Variables (s : st) (t : nat) (th : thread).
+
+Lemma quiet_upd : forall X th', threads X = threads s -> (forall sl, wfS X sl = wfS s sl) -> benign (tpc th') ->
+  notcertain (tpc th) -> effect s t th (upd X t th').
+Proof. intros X th' HT HW B N. eapply EQuiet with (th' := th'); auto. cbn. now rewrite HT. Qed.
+
+Lemma quiet_end_segment : forall X th1 o, threads X = threads s -> (forall sl, wfS X sl = wfS s sl) ->
+  notcertain (tpc th) -> effect s t th (end_segment X t th1 o).
+Proof. intros X th1 o HT HW N. destruct (end_segment_shape X t th1 o) as (th' & -> & B & _). apply quiet_upd; auto. Qed.
+
+Lemma quiet_end_segment_zero : forall X th1 o, threads X = threads s -> (forall sl, wfS X sl = wfS s sl) ->
+  notcertain (tpc th) -> effect s t th (end_segment_zero X t th1 o).
+Proof. intros. unfold end_segment_zero. apply quiet_end_segment; auto. Qed.
+
+Lemma quiet_after_pubs : forall X th1 o, threads X = threads s -> (forall sl, wfS X sl = wfS s sl) ->
+  notcertain (tpc th) -> effect s t th (after_pubs X t th1 o).
+Proof. intros. unfold after_pubs. destruct (fwake _). apply quiet_upd; auto. exact I. apply quiet_end_segment; auto. Qed.
+
+Lemma quiet_next_wk : forall X th1 o j, threads X = threads s -> (forall sl, wfS X sl = wfS s sl) ->
+  notcertain (tpc th) -> effect s t th (next_wk X t th1 o j).
+Proof. intros. unfold next_wk. destruct (Nat.ltb _ _). apply quiet_upd; auto. exact I. apply quiet_end_segment; auto. Qed.
+
+Lemma quiet_got_ticket : forall X th1 o i, threads X = threads s -> (forall sl, wfS X sl = wfS s sl) ->
+  notcertain (tpc th) -> effect s t th (got_ticket X t th1 o i).
+Proof.
+  intros. unfold got_ticket. destruct (split _ _ _ _) as [[i1 n1] r]. apply quiet_upd; auto. apply benign_first_wait.
+Qed.
+End Eff.
+
+Lemma wfS_set_slot_same : forall s sl x sl', wf x = wfS s sl -> wfS (set_slot s sl x) sl' = wfS s sl'.
+Proof. intros. unfold wfS, set_slot. cbn. apply wfs_set_same. exact H. Qed.
+Lemma wfS_set_slot_other : forall s sl x sl', sl' <> sl -> wfS (set_slot s sl x) sl' = wfS s sl'.
+Proof. intros. unfold wfS, set_slot, wfs. cbn. rewrite nth_set_nth_neq; auto. Qed.
+
+(* facts about the futex word *)
+Lemma word16_flag : forall v w, block_no_waiter (word16 v w) = negb w.
+Proof.
+  intros. unfold block_no_waiter, word16. pose proof (Z.mod_pos_bound v 65536 ltac:(lia)).
+  destruct w; cbn; [apply Z.leb_gt | apply Z.leb_le]; lia.
+Qed.
+Lemma word16_flag_x : forall v w, xchg_no_waiter (word16 v w) = negb w.
+Proof.
+  intros. unfold xchg_no_waiter, word16. pose proof (Z.mod_pos_bound v 65536 ltac:(lia)).
+  destruct w; cbn; [apply Z.leb_gt | apply Z.leb_le]; lia.
+Qed.
+Lemma word16_flag_w : forall v w, wakeup_no_waiter (word16 v w) = negb w.
+Proof.
+  intros. unfold wakeup_no_waiter, word16. pose proof (Z.mod_pos_bound v 65536 ltac:(lia)).
+  destruct w; cbn; [apply Z.leb_gt | apply Z.leb_le]; lia.
+Qed.
+Lemma word16_set_waiter : forall v, block_no_waiter (block_wait_word (word16 v false)) = false.
+Proof.
+  intros. unfold block_no_waiter, block_wait_word, word16. pose proof (Z.mod_pos_bound v 65536 ltac:(lia)).
+  apply Z.leb_gt. lia.
+Qed.
+Lemma word16_eq_flag : forall v w c w', word16 v w = word16 c w' -> w = w'.
+Proof.
+  intros v w c w'. unfold word16. pose proof (Z.mod_pos_bound v 65536 ltac:(lia)). pose proof (Z.mod_pos_bound c 65536 ltac:(lia)).
+  destruct w, w'; intros; auto; lia.
+Qed.
+
+Lemma wfS_set_slot_mono : forall s sl x sl', wf x = true -> wfS s sl' = true -> wfS (set_slot s sl x) sl' = true.
+Proof.
+  intros s sl x sl' Hx H. unfold wfS, set_slot, wfs in *. cbn. destruct (Nat.eq_dec sl sl') as [->|N].
+  - destruct (Nat.lt_ge_cases sl' (length (slots s))).
+    + rewrite nth_set_nth_eq; auto.
+    + rewrite nth_overflow in H; [discriminate | lia].
+  - rewrite nth_set_nth_neq; auto.
+Qed.
+
+Ltac inv H := inversion H; subst; clear H.
+Ltac brk H := repeat match type of H with context [if ?b then _ else _] => destruct b eqn:? end.
+
+Lemma step_effect : forall s t th o s', nth_error (threads s) t = Some th ->
+  step_thread s t th o = Some s' -> effect s t th s'.
+Proof.
+  intros s t th o s' HT H. unfold step_thread in H. cbv zeta in H.
+  destruct (tpc th) eqn:E.
+  all: try (assert (N : notcertain (tpc th)) by (intros ?sl ?C; rewrite E in C; exact C)).
+  Ltac q := first [ apply quiet_upd | apply quiet_end_segment_zero | apply quiet_end_segment | apply quiet_after_pubs
+                  | apply quiet_next_wk | apply quiet_got_ticket ]; auto;
+            try apply benign_after_wait; try apply benign_slow_path; try apply benign_first_wait; try ben.
+  - (* Idle *)
+    destruct (okind o).
+    + destruct (oconc o); inv H; q.
+    + destruct (oconc o); inv H; q.
+    + inv H; q.
+    + destruct (split _ _ _ _) as [[i1 n1] r]. inv H; q.
+    + inv H; q.
+  - (* TkStore *) inv H; q.
+  - (* WLoad *) destruct (wait_target _ _ _ _) as [sl e]. brk H; inv H; q.
+  - (* WCas *)
+    destruct (wait_target _ _ _ _) as [sl e].
+    destruct (Z.eqb _ _) eqn:EQ.
+    + inv H. apply Z.eqb_eq in EQ. unfold slot_word in EQ. unfold slot_word. rewrite EQ. rewrite word16_set_waiter. cbn [negb].
+      eapply ESetW; [cbn; reflexivity | exact I | intros; apply wfS_set_slot_mono; auto | exact N].
+    + brk H; inv H; q.
+  - (* WFutex *)
+    destruct (wait_target _ _ _ _) as [sl e].
+    destruct (Z.eqb _ _) eqn:EQ.
+    + inv H. apply Z.eqb_eq in EQ. unfold slot_word in EQ. apply word16_eq_flag in EQ.
+      eapply EPark with (sl0 := sl); [cbn; reflexivity | cbn; reflexivity | exact EQ | intros; reflexivity | exact N].
+    + inv H; q.
+  - (* WParked *) brk H; inv H; q.
+  - (* WReload *) destruct (wait_target _ _ _ _) as [sl e]. brk H; inv H; q.
+  - (* WSleep *) inv H; q.
+  - (* WSpin *) destruct (wait_target _ _ _ _) as [sl e]. brk H; inv H; q.
+  - (* FenceA *) inv H; q.
+  - (* Callback *)
+    destruct (is_push o).
+    + destruct (cb_push _ _ _ _ _ _ _) as [[sls ps] e] eqn:C. inv H. q.
+      intros sl. pose proof (cb_push_wf (firstn (seg_n (lc th)) (vals (lc th))) t (slots s) (seg_slot s o (lc th) 0) (seg_i (lc th)) (pushed s) (err s) sl) as W.
+      rewrite C in W. exact W.
+    + destruct (cb_pop _ _ _ _ _ _ _ _) as [[[sls ds] g] e] eqn:C. inv H. q.
+      intros sl. pose proof (cb_pop_wf (seg_n (lc th)) t (slots s) (seg_slot s o (lc th) 0) (seg_i (lc th)) (delivered s) (got (lc th)) (err s) sl) as W.
+      rewrite C in W. exact W.
+  - (* FenceR *) brk H; inv H; q.
+  - (* Pub *)
+    destruct (is_single o).
+    + destruct (fwake (oflags o)).
+      * destruct (xchg_no_waiter _) eqn:XN; inv H.
+        -- unfold slot_word in XN. rewrite word16_flag_x in XN.
+           match goal with |- effect _ _ _ (end_segment ?X _ _ _) => destruct (end_segment_shape X t th o) as (th' & -> & B & _) end.
+           eapply EClear with (sl0 := seg_slot s o (lc th) j);
+             [cbn; reflexivity | intros; cbn; apply wfS_set_slot_other; auto | | exact N].
+           right; right. split; auto. unfold wfS, wfs. unfold get_slot in XN. destruct (wf _); auto; discriminate.
+        -- eapply EClear with (sl0 := seg_slot s o (lc th) j);
+             [cbn; reflexivity | intros; cbn; apply wfS_set_slot_other; auto | left; reflexivity | exact N].
+      * inv H. q. intros. apply wfS_set_slot_same. reflexivity.
+    + brk H; inv H; q; intros; apply wfS_set_slot_same; reflexivity.
+  - (* PubWake *)
+    inv H. destruct (end_segment_shape (wake_all s sl) t th o) as (th' & -> & B & _).
+    eapply EWake with (sl0 := sl); [cbn; reflexivity | exact B | intros; reflexivity | intros sl' C; rewrite E in C; cbn in C; congruence].
+  - (* FenceSC *) brk H; inv H; q.
+  - (* WkLoad *) brk H; inv H; q.
+  - (* WkCas *)
+    destruct (Z.eqb _ _) eqn:EQ; inv H.
+    + eapply EClear with (sl0 := seg_slot s o (lc th) j);
+        [cbn; reflexivity | intros; cbn; apply wfS_set_slot_other; auto | right; left; eexists; reflexivity | exact N].
+    + q.
+  - (* WkWake *)
+    inv H. unfold next_wk. destruct (Nat.ltb _ _).
+    + eapply EWake with (sl0 := sl); [cbn; reflexivity | exact I | intros; reflexivity | intros sl' C; rewrite E in C; cbn in C; congruence].
+    + destruct (end_segment_shape (wake_all s sl) t th o) as (th' & -> & B & _).
+      eapply EWake with (sl0 := sl); [cbn; reflexivity | exact B | intros; reflexivity | intros sl' C; rewrite E in C; cbn in C; congruence].
+  - (* TryVer *) brk H; inv H; q.
+  - (* TryReidx *) brk H; inv H; q.
+  - (* TryCas *) brk H; inv H; q.
+  - (* TnVer *) brk H; inv H; q.
+  - (* TnCas *) brk H; inv H; q.
+  - (* TnIdx *) destruct (split _ _ _ _) as [[i1 n1] r]. inv H; q.
+Qed.
+
 Definition Reach (k : nat) (progs : list (list op)) (s : st) : Prop :=
   reachable st step (init k progs) s.
+
+Definition tick (s : st) : st :=
+  {| kbits := kbits s; npush := npush s; npop := npop s; slots := slots s; threads := threads s;
+     clock := clock s + 1; pushed := pushed s; delivered := delivered s; err := err s |}.
+
+Lemma step_inv : forall s t s', step s t = Some s' ->
+  (exists th o, nth_error (threads s) t = Some th /\ nth_error (prog th) (opi th) = Some o /\ step_thread s t th o = Some s')
+  \/ (nth_error (threads s) t = None /\ s' = tick s).
+Proof.
+  intros s t s' H. unfold step in H. destruct (nth_error (threads s) t) as [th|] eqn:E.
+  - destruct (nth_error (prog th) (opi th)) as [o|] eqn:F; [|discriminate]. left. eauto.
+  - destruct (Nat.eqb _ _); inversion H. right. split; auto.
+Qed.
+
+(* ---------------- P: a sleeper is never forgotten ---------------- *)
+Definition certain (s : st) (sl : nat) : Prop :=
+  exists u thu, nth_error (threads s) u = Some thu /\ iscertain (tpc thu) sl.
+Definition Pinv (s : st) : Prop :=
+  forall u thu j sl, nth_error (threads s) u = Some thu -> tpc thu = WParked j sl -> wfS s sl = true \/ certain s sl.
+
+Lemma nth_error_lt : forall A (l : list A) n x, nth_error l n = Some x -> (n < length l)%nat.
+Proof. intros. apply nth_error_Some. congruence. Qed.
+
+Lemma certain_keep : forall s s' t th th' sl, nth_error (threads s) t = Some th -> notcertain (tpc th) ->
+  threads s' = set_nth t th' (threads s) -> certain s sl -> certain s' sl.
+Proof.
+  intros s s' t th th' sl HT N E (v & thv & Hv & C). exists v, thv. split; auto. rewrite E.
+  rewrite nth_error_set_nth_neq; auto. intros ->. rewrite HT in Hv. inversion Hv; subst. exact (N _ C).
+Qed.
+
+Lemma wake_thread_certain : forall sl0 x sl, iscertain (tpc (wake_thread sl0 x)) sl <-> iscertain (tpc x) sl.
+Proof. intros. unfold wake_thread. destruct (tpc x) eqn:E; try (rewrite E; tauto). destruct (Nat.eqb _ _); cbn; rewrite ?E; cbn; tauto. Qed.
+Lemma wake_thread_parked : forall sl0 x j sl, tpc (wake_thread sl0 x) = WParked j sl -> tpc x = WParked j sl /\ sl <> sl0.
+Proof.
+  intros sl0 x j sl. unfold wake_thread. destruct (tpc x) eqn:E; try (rewrite E; discriminate).
+  destruct (Nat.eqb sl0 sl1) eqn:Q; cbn; [discriminate|]. rewrite E. intros H; inversion H; subst. split; auto.
+  apply Nat.eqb_neq in Q. auto.
+Qed.
+
+Lemma Pinv_effect : forall s t th s', nth_error (threads s) t = Some th -> effect s t th s' -> Pinv s -> Pinv s'.
+Proof.
+  intros s t th s' HT EF P u thu j sl Hu Hp. pose proof (nth_error_lt _ _ _ _ HT) as LT.
+  destruct EF as [th' ET B W N | th' ET B W N | th' j0 sl0 ET TP W0 W N | th' sl0 ET W ALT N | th' sl0 ET B W C].
+  - rewrite ET in Hu. apply nth_error_set_nth_some in Hu as [[-> ->]|[NE Hu]].
+    + rewrite Hp in B. contradiction.
+    + destruct (P _ _ _ _ Hu Hp) as [F|C]. left; rewrite W; auto. right; exact (certain_keep _ _ _ _ _ _ HT N ET C).
+  - rewrite ET in Hu. apply nth_error_set_nth_some in Hu as [[-> ->]|[NE Hu]].
+    + rewrite Hp in B. contradiction.
+    + destruct (P _ _ _ _ Hu Hp) as [F|C]. left; auto. right; exact (certain_keep _ _ _ _ _ _ HT N ET C).
+  - rewrite ET in Hu. apply nth_error_set_nth_some in Hu as [[-> ->]|[NE Hu]].
+    + rewrite Hp in TP. inversion TP; subst. left. rewrite W. auto.
+    + destruct (P _ _ _ _ Hu Hp) as [F|C]. left; rewrite W; auto. right; exact (certain_keep _ _ _ _ _ _ HT N ET C).
+  - rewrite ET in Hu. apply nth_error_set_nth_some in Hu as [[-> ->]|[NE Hu]].
+    + destruct ALT as [A|[[j1 A]|[A _]]]; rewrite Hp in A; try discriminate. contradiction.
+    + destruct (Nat.eq_dec sl sl0) as [->|NS].
+      * destruct ALT as [A|[[j1 A]|[A F0]]].
+        -- right. exists t, th'. split. rewrite ET. apply nth_error_set_nth_eq; auto. rewrite A. reflexivity.
+        -- right. exists t, th'. split. rewrite ET. apply nth_error_set_nth_eq; auto. rewrite A. reflexivity.
+        -- destruct (P _ _ _ _ Hu Hp) as [F|C]. congruence. right; exact (certain_keep _ _ _ _ _ _ HT N ET C).
+      * destruct (P _ _ _ _ Hu Hp) as [F|C]. left; rewrite W; auto. right; exact (certain_keep _ _ _ _ _ _ HT N ET C).
+  - rewrite ET in Hu. apply nth_error_set_nth_some in Hu as [[-> ->]|[NE Hu]].
+    + rewrite Hp in B. contradiction.
+    + rewrite nth_error_map in Hu. destruct (nth_error (threads s) u) as [x|] eqn:Hx; [|discriminate].
+      cbn in Hu. inversion Hu; subst. apply wake_thread_parked in Hp as [Hp NS].
+      destruct (P _ _ _ _ Hx Hp) as [F|(v & thv & Hv & Cv)]. left; rewrite W; auto.
+      right. assert (v <> t). { intros ->. rewrite HT in Hv. inversion Hv; subst. apply C in Cv. auto. }
+      exists v, (wake_thread sl0 thv). split. rewrite ET. rewrite nth_error_set_nth_neq; auto. rewrite nth_error_map, Hv. reflexivity.
+      apply wake_thread_certain. auto.
+Qed.
+
+Lemma Pinv_init : forall k progs, Pinv (init k progs).
+Proof.
+  intros k progs u thu j sl Hu Hp. cbn in Hu. rewrite nth_error_map in Hu. destruct (nth_error progs u); [|discriminate].
+  inversion Hu; subst. discriminate.
+Qed.
+
+Lemma Pinv_step : forall s t s', Pinv s -> step s t = Some s' -> Pinv s'.
+Proof.
+  intros s t s' P H. apply step_inv in H as [(th & o & HT & HO & HS)|[HN ->]].
+  - eapply Pinv_effect; eauto. eapply step_effect; eauto.
+  - exact P.
+Qed.
+
+Theorem bq_sleeper_not_forgotten : forall k progs s, Reach k progs s ->
+  forall u thu j sl, nth_error (threads s) u = Some thu -> tpc thu = WParked j sl ->
+  wf (get_slot s sl) = true \/
+  exists v thv, nth_error (threads s) v = Some thv /\ (tpc thv = PubWake sl \/ exists j', tpc thv = WkWake j' sl).
+Proof.
+  intros k progs s R. assert (P : Pinv s).
+  { eapply inv_reachable with (Inv := Pinv); eauto. apply Pinv_init. intros; eapply Pinv_step; eauto. }
+  intros u thu j sl Hu Hp. destruct (P _ _ _ _ Hu Hp) as [F|(v & thv & Hv & C)]; [left; exact F|right].
+  exists v, thv. split; auto. destruct (tpc thv); cbn in C; try contradiction; subst; eauto.
+Qed.
+
+(* ---------------- wakers ---------------- *)
+(* the single waker: an exchange that finds the waiter bit set goes on to wake_all *)
+Lemma bq_xchg_waker : forall s t th o j s', nth_error (threads s) t = Some th -> nth_error (prog th) (opi th) = Some o ->
+  tpc th = Pub j -> is_single o = true -> fwake (oflags o) = true -> wf (get_slot s (seg_slot s o (lc th) j)) = true ->
+  step s t = Some s' ->
+  exists th', nth_error (threads s') t = Some th' /\ tpc th' = PubWake (seg_slot s o (lc th) j).
+Proof.
+  intros s t th o j s' HT HO E SG FW W H. unfold step in H. rewrite HT, HO in H. unfold step_thread in H. cbv zeta in H.
+  rewrite E, SG, FW in H. unfold slot_word in H. rewrite word16_flag_x, W in H. cbn [negb] in H. inversion H; subst.
+  eexists. split. cbn. apply nth_error_set_nth_eq. eapply nth_error_lt; eauto. reflexivity.
+Qed.
+(* the batch waker: the load after the seq_cst fence that finds the waiter bit set on its own version goes on to CAS;
+   a CAS that succeeds goes on to wake_all *)
+Lemma bq_batch_waker_load : forall s t th o j s', nth_error (threads s) t = Some th -> nth_error (prog th) (opi th) = Some o ->
+  tpc th = WkLoad j -> wf (get_slot s (seg_slot s o (lc th) j)) = true ->
+  ver (get_slot s (seg_slot s o (lc th) j)) = wake_ver (okind o) (seg_ever s o (lc th)) ->
+  step s t = Some s' ->
+  exists th', nth_error (threads s') t = Some th' /\ tpc th' = WkCas j (ver (get_slot s (seg_slot s o (lc th) j))).
+Proof.
+  intros s t th o j s' HT HO E W V H. unfold step in H. rewrite HT, HO in H. unfold step_thread in H. cbv zeta in H.
+  rewrite E in H. unfold slot_word in H. rewrite word16_flag_w, W in H. cbn [negb] in H.
+  unfold wakeup_moved_on in H. rewrite V, Z.eqb_refl in H. cbn [negb] in H. inversion H; subst.
+  eexists. split. cbn. apply nth_error_set_nth_eq. eapply nth_error_lt; eauto. cbn. rewrite V. reflexivity.
+Qed.
+Lemma bq_batch_waker_cas : forall s t th o j cur s', nth_error (threads s) t = Some th -> nth_error (prog th) (opi th) = Some o ->
+  tpc th = WkCas j cur -> wf (get_slot s (seg_slot s o (lc th) j)) = true ->
+  ver (get_slot s (seg_slot s o (lc th) j)) = cur ->
+  step s t = Some s' ->
+  exists th', nth_error (threads s') t = Some th' /\ tpc th' = WkWake j (seg_slot s o (lc th) j).
+Proof.
+  intros s t th o j cur s' HT HO E W V H. unfold step in H. rewrite HT, HO in H. unfold step_thread in H. cbv zeta in H.
+  rewrite E in H. unfold slot_word in H. rewrite W, V, Z.eqb_refl in H. inversion H; subst.
+  eexists. split. cbn. apply nth_error_set_nth_eq. eapply nth_error_lt; eauto. reflexivity.
+Qed.
+(* wake_all releases every sleeper of the slot *)
+Lemma bq_wake_releases : forall s t th s' sl, nth_error (threads s) t = Some th ->
+  (tpc th = PubWake sl \/ exists j, tpc th = WkWake j sl) -> step s t = Some s' ->
+  forall u thu j, nth_error (threads s') u = Some thu -> tpc thu <> WParked j sl.
+Proof.
+  intros s t th s' sl HT C H u thu j Hu Hp. apply step_inv in H as [(th0 & o & HT' & HO & HS)|[HN _]]; [|congruence].
+  rewrite HT in HT'. inversion HT'; subst th0.
+  assert (exists th', threads s' = set_nth t th' (map (wake_thread sl) (threads s)) /\ benign (tpc th')) as (th' & ET & B).
+  { unfold step_thread in HS. cbv zeta in HS. destruct C as [E|[j0 E]]; rewrite E in HS; inversion HS; subst.
+    - destruct (end_segment_shape (wake_all s sl) t th o) as (th' & -> & B & _). exists th'. split; auto.
+    - unfold next_wk. destruct (Nat.ltb _ _).
+      + eexists. split. cbn. reflexivity. exact I.
+      + destruct (end_segment_shape (wake_all s sl) t th o) as (th' & -> & B & _). exists th'. split; auto. }
+  rewrite ET in Hu. apply nth_error_set_nth_some in Hu as [[-> ->]|[NE Hu]].
+  - rewrite Hp in B. contradiction.
+  - rewrite nth_error_map in Hu. destruct (nth_error (threads s) u) as [x|]; [|discriminate]. inversion Hu; subst.
+    apply wake_thread_parked in Hp as [_ NS]. congruence.
+Qed.
+
+(* ---------------- enabledness ---------------- *)
+Lemma step_thread_enabled : forall s t th o, (forall j sl, tpc th <> WParked j sl) -> step_thread s t th o <> None.
+Proof.
+  intros s t th o NP. unfold step_thread. cbv zeta. destruct (tpc th) eqn:E; try (exfalso; eapply NP; reflexivity);
+  repeat (match goal with |- context [match ?x with _ => _ end] => destruct x end); discriminate.
+Qed.
+Theorem bq_unparked_enabled : forall s t th, nth_error (threads s) t = Some th -> thread_done th = false ->
+  (forall j sl, tpc th <> WParked j sl) -> step s t <> None.
+Proof.
+  intros s t th HT D NP. unfold step. rewrite HT. unfold thread_done in D.
+  destruct (nth_error (prog th) (opi th)) as [o|]; [|discriminate]. apply step_thread_enabled; auto.
+Qed.
+Theorem bq_timed_released : forall s t th o j sl, nth_error (threads s) t = Some th -> nth_error (prog th) (opi th) = Some o ->
+  tpc th = WParked j sl -> is_timed o = true -> dl (lc th) <= clock s -> step s t <> None.
+Proof.
+  intros s t th o j sl HT HO E TM D. unfold step. rewrite HT, HO. unfold step_thread. cbv zeta. rewrite E, TM.
+  apply Z.leb_le in D. rewrite D. cbn. discriminate.
+Qed.
+(* the clock can always advance: the deadline of a timed sleeper is always eventually reached *)
+Theorem bq_clock_enabled : forall s, step s (length (threads s)) <> None.
+Proof.
+  intros s. unfold step. assert (nth_error (threads s) (length (threads s)) = None) as -> by (apply nth_error_None; lia).
+  rewrite Nat.eqb_refl. discriminate.
+Qed.
+
+(* ---------------- the regenerated arithmetic, for every capacity 2^k ---------------- *)
+Lemma mask_ones : forall k, 0 <= k -> 2 ^ k - 1 = Z.ones k.
+Proof. intros. rewrite Z.ones_equiv. lia. Qed.
+
+Lemma bq_push_ver : forall k i, 0 <= k -> push_ver k i = 2 * (i / 2 ^ k).
+Proof. intros. unfold push_ver. rewrite Z.shiftl_mul_pow2 by lia. rewrite Z.shiftr_div_pow2 by lia. lia. Qed.
+Lemma bq_pop_ver : forall k i, 0 <= k -> pop_ver k i = 2 * (i / 2 ^ k) + 1.
+Proof. intros. unfold pop_ver. rewrite bq_push_ver by lia. lia. Qed.
+Lemma bq_slot_index : forall k i, 0 <= k -> slot_index i (2 ^ k - 1) = i mod 2 ^ k /\ slot_index_try i (2 ^ k - 1) = i mod 2 ^ k /\
+  slot_index_n i (2 ^ k - 1) = i mod 2 ^ k /\ slot_index_tryn i (2 ^ k - 1) = i mod 2 ^ k /\ slot_index_until i (2 ^ k - 1) = i mod 2 ^ k.
+Proof.
+  intros. unfold slot_index, slot_index_try, slot_index_n, slot_index_tryn, slot_index_until.
+  rewrite mask_ones by lia. rewrite Z.land_ones by lia. auto.
+Qed.
+(* a ticket is determined by its side, its slot and the version it expects: no two tickets ever compete for a
+   (slot, version) pair *)
+Theorem bq_ticket_injective : forall k i i', 0 <= k ->
+  slot_index i (2 ^ k - 1) = slot_index i' (2 ^ k - 1) ->
+  (push_ver k i = push_ver k i' \/ pop_ver k i = pop_ver k i') -> i = i'.
+Proof.
+  intros k i i' Hk HS HV. destruct (bq_slot_index k i Hk) as (E1 & _). destruct (bq_slot_index k i' Hk) as (E2 & _).
+  rewrite E1, E2 in HS. assert (P : 0 < 2 ^ k) by (apply Z.pow_pos_nonneg; lia).
+  assert (i / 2 ^ k = i' / 2 ^ k) by (destruct HV as [HV|HV]; rewrite ?bq_push_ver, ?bq_pop_ver in HV by lia; lia).
+  rewrite (Z.div_mod i (2 ^ k)) by lia. rewrite (Z.div_mod i' (2 ^ k)) by lia. congruence.
+Qed.
+Theorem bq_push_pop_versions_differ : forall k i i', 0 <= k -> push_ver k i <> pop_ver k i'.
+Proof. intros. rewrite bq_push_ver, bq_pop_ver by lia. lia. Qed.
+
+Lemma round_formula : forall k i, 0 <= k -> Z.land (i + (2 ^ k - 1) + 1) (Z.lnot (2 ^ k - 1)) = (i / 2 ^ k + 1) * 2 ^ k.
+Proof.
+  intros k i Hk. rewrite mask_ones by lia. rewrite <- Z.ldiff_land. rewrite Z.ldiff_ones_r by lia.
+  rewrite Z.shiftl_mul_pow2 by lia. rewrite Z.shiftr_div_pow2 by lia. rewrite <- mask_ones by lia.
+  assert (P : 0 < 2 ^ k) by (apply Z.pow_pos_nonneg; lia).
+  replace (i + (2 ^ k - 1) + 1) with (i + 1 * 2 ^ k) by lia. rewrite Z.div_add by lia. reflexivity.
+Qed.
+Theorem bq_round : forall k i, 0 <= k ->
+  push_n_round i (2 ^ k - 1) = (i / 2 ^ k + 1) * 2 ^ k /\ pop_n_round i (2 ^ k - 1) = (i / 2 ^ k + 1) * 2 ^ k /\
+  try_push_n_round i (2 ^ k - 1) = (i / 2 ^ k + 1) * 2 ^ k /\ try_pop_n_round i (2 ^ k - 1) = (i / 2 ^ k + 1) * 2 ^ k.
+Proof. intros. unfold push_n_round, pop_n_round, try_push_n_round, try_pop_n_round. rewrite !round_formula by lia. auto. Qed.
+
+(* a request for n <= capacity elements starting at ticket i is cut into at most two segments that are consecutive, add up
+   to n, and each stay inside one round of the ring (so one expected version serves a whole segment) *)
+Definition seg_in_round (k : Z) (i : Z) (n : nat) : Prop := i mod 2 ^ k + Z.of_nat n <= 2 ^ k.
+Theorem bq_split_sound : forall o kb i n i1 n1 r, 0 <= kb -> 0 <= i -> 0 <= n <= 2 ^ kb ->
+  (okind o = KSingle \/ okind o = KTry -> n <= 1) ->
+  split o (2 ^ kb - 1) i n = ((i1, n1), r) ->
+  i1 = i /\ seg_in_round kb i1 n1 /\
+  match r with
+  | None => Z.of_nat n1 = n
+  | Some (i2, n2) => i2 = i1 + Z.of_nat n1 /\ Z.of_nat n1 + Z.of_nat n2 = n /\ seg_in_round kb i2 n2 /\ (0 < n1)%nat
+  end.
+Proof.
+  intros o kb i n i1 n1 r Hk Hi Hn H1 H. unfold split in H. unfold seg_in_round.
+  destruct (bq_round kb i Hk) as (R1 & R2 & R3 & R4).
+  assert (P : 0 < 2 ^ kb) by (apply Z.pow_pos_nonneg; lia).
+  pose proof (Z.mod_pos_bound i (2 ^ kb) P) as MB. pose proof (Z.div_mod i (2 ^ kb) ltac:(lia)) as DM.
+  assert (RM : ((i / 2 ^ kb + 1) * 2 ^ kb) mod 2 ^ kb = 0) by (apply Z.mod_mul; lia).
+  destruct (okind o) eqn:K; destruct (is_push o);
+  repeat match type of H with
+  | context [push_n_round] => rewrite R1 in H | context [pop_n_round] => rewrite R2 in H
+  | context [try_push_n_round] => rewrite R3 in H | context [try_pop_n_round] => rewrite R4 in H end;
+  unfold push_n_fits, push_n_first, push_n_second, pop_n_fits, pop_n_first, pop_n_second, try_push_n_end, try_push_n_fits,
+    try_push_n_whole, try_push_n_first, try_push_n_second, try_pop_n_end, try_pop_n_fits, try_pop_n_whole, try_pop_n_first,
+    try_pop_n_second in H;
+  try (destruct (Z.leb _ _) eqn:L; [apply Z.leb_le in L | apply Z.leb_gt in L]); inversion H; subst; clear H;
+  rewrite ?RM; rewrite ?Z2Nat.id by lia; try (repeat split; try lia; nia).
+all: assert (n <= 1) by (apply H1; auto); repeat split; lia.
+Qed.
+Theorem bq_next_version : forall k w e, next_ver k w e = e + 1 /\ wake_ver k e = e + 1.
+Proof.
+  intros. unfold next_ver, wake_ver, deal_next_version, deal_next_version_nowake, try_deal_next_version,
+    try_deal_next_version_nowake, deal_n_next_version, try_deal_n_next_version, deal_n_wake_version, try_deal_n_wake_version.
+  destruct k, w; split; reflexivity.
+Qed.
+Theorem bq_next_index : forall i n, try_deal_next_index i = i + 1 /\ try_deal_n_next_index i n = i + n /\
+  try_deal_n_next_index_excl i n = i + n /\ until_index i n = i + n.
+Proof. intros. unfold try_deal_next_index, try_deal_n_next_index, try_deal_n_next_index_excl, until_index. repeat split; lia. Qed.
+Theorem bq_ready_tests : forall v e,
+  wait_ready v e = (v =? e) /\ block_cas_ready v e = (v =? e) /\ block_reload_ready v e = (v =? e) /\ spin_ready v e = (v =? e) /\
+  try_deal_not_ready e v = negb (v =? e) /\ try_deal_n_not_ready e v = negb (v =? e) /\ wakeup_moved_on v e = negb (v =? e) /\
+  try_deal_same_index v e = (v =? e) /\ try_deal_n_none v = (v =? 0).
+Proof.
+  intros. unfold wait_ready, block_cas_ready, block_reload_ready, spin_ready, try_deal_not_ready, try_deal_n_not_ready,
+    wakeup_moved_on, try_deal_same_index, try_deal_n_none. rewrite (Z.eqb_sym e v). repeat split; reflexivity.
+Qed.
+Theorem bq_try_n_short : forall o d r, try_short o d r = Nat.ltb d r.
+Proof.
+  intros. unfold try_short, try_push_n_short, try_pop_n_short. destruct (is_push o);
+  (destruct (Nat.ltb d r) eqn:E; [apply Nat.ltb_lt in E; apply Z.ltb_lt; lia | apply Nat.ltb_ge in E; apply Z.ltb_ge; lia]).
+Qed.
+Theorem bq_timeout_refresh : forall b e d, block_elapsed b e = e - b /\ block_expired d = (d <=? 0).
+Proof. intros. unfold block_elapsed, block_expired. split; reflexivity. Qed.
+(* 16-bit truncation of versions: two versions that agree in their low 16 bits and are less than 2^16 apart are equal, so
+   comparing uint16_t versions is the same as comparing the unbounded ones as long as a waiter never lags its slot by
+   2^15 rounds or more *)
+Theorem bq_version16_sound : forall a b, a mod 65536 = b mod 65536 -> Z.abs (a - b) < 65536 -> a = b.
+Proof.
+  intros a b H D. pose proof (Z.div_mod a 65536 ltac:(lia)). pose proof (Z.div_mod b 65536 ltac:(lia)). lia.
+Qed.
 
 (* memory-order obligations on the regenerated site tables / call arguments *)
 Definition orders_ok : bool :=
@@ -18,3 +523,25 @@ Definition orders_ok : bool :=
   end.
 Lemma bq_orders_ok : orders_ok = true.
 Proof. vm_compute. reflexivity. Qed.
+
+(* ---------------- non-vacuity helpers ---------------- *)
+Definition f111 : flags := {| conc := true; fwait := true; fwake := true |}.
+Definition parked_b (th : thread) : bool := match tpc th with WParked _ _ => true | _ => false end.
+Definition wake_pending_b (th : thread) : bool := match tpc th with PubWake _ | WkWake _ _ => true | _ => false end.
+Lemma bq_usage_example : usage_ok 1 [[OPush f111 1; OPushN f111 [2; 3]]; [OPop f111; OPopN f111 2]] = true.
+Proof. vm_compute. reflexivity. Qed.
+Lemma bq_reach_example :
+  exists s, Reach 0 [[OPush f111 1]; [OPop f111]] s /\ existsb parked_b (threads s) = true /\
+            existsb wake_pending_b (threads s) = true /\ err s = false.
+Proof.
+  exists (run st step (init 0 [[OPush f111 1]; [OPop f111]]) [1; 1; 1; 1; 0; 0; 0; 0]%nat). split.
+  - eexists. reflexivity.
+  - vm_compute. auto.
+Qed.
+Lemma bq_finish_example :
+  exists s, Reach 0 [[OPush f111 1]; [OPop f111]] s /\ all_done s = true /\ delivered s = [(0, 1)] /\ pushed s = [(0, 1)].
+Proof.
+  exists (run st step (init 0 [[OPush f111 1]; [OPop f111]]) [1; 1; 1; 1; 0; 0; 0; 0; 0; 1; 1; 1; 1; 1; 1]%nat). split.
+  - eexists. reflexivity.
+  - vm_compute. auto.
+Qed.
